@@ -1,0 +1,21 @@
+//go:build verif
+
+package nquads
+
+import "github.com/dpb587/rdfkit-go/encoding/nquads/internal"
+
+// Hooks for the verification harness in /verif (build tag "verif"): thin exported aliases of
+// unexported rune-level functions so they can be tabulated over their whole domain.
+
+func VerifIriMustEscapeRune(r rune, ascii bool) uint {
+	return uint(iriMustEscapeRune(r, ascii))
+}
+
+func VerifLiteralStringMustEscapeRune(r rune, ascii bool) uint {
+	return uint(literalStringMustEscapeRune(r, ascii))
+}
+
+func VerifIsRunePNCharsBase(r rune) bool { return internal.IsRune_PN_CHARS_BASE(r) }
+func VerifIsRunePNCharsU(r rune) bool    { return internal.IsRune_PN_CHARS_U(r) }
+func VerifIsRunePNChars(r rune) bool     { return internal.IsRune_PN_CHARS(r) }
+func VerifHexDecode(r rune) (rune, bool) { return internal.HexDecode(r) }
